@@ -2,9 +2,13 @@ SPECIFICATION Spec
 CONSTANTS
  Keys = {"n1"}
  G = 2
- MaxNow = 3
+ MaxNow = 2
  MaxGen = 1
- TtlSets <- TS_full
-INVARIANTS TypeOK EntryFresh Fresh NoCachedFailure MutualExclusion LockHeld
+ TtlSets <- TS_q
+ Evicts = TRUE
+ MaxObj = 3
+CONSTRAINT ObjBound
+ACTION_CONSTRAINT CancelLate
+INVARIANTS TypeOK EntryFresh Fresh NoCachedFailure MutualExclusion LockHeld KeyOK ServedFromCache
 CHECK_DEADLOCK FALSE
 VIEW ViewNoLast
